@@ -4,7 +4,6 @@ import (
 	"fmt"
 
 	"github.com/ipld/go-ipld-prime"
-	"github.com/ipld/go-ipld-prime/must"
 )
 
 const (
@@ -17,7 +16,11 @@ const (
 func ValidateIntegerBoundsIPLD(node ipld.Node) error {
 	switch node.Kind() {
 	case ipld.Kind_Int:
-		val := must.Int(node)
+		val, err := node.AsInt()
+		if err != nil {
+			// e.g. an unsigned integer beyond the int64 range
+			return fmt.Errorf("integer value exceeds safe bounds: %w", err)
+		}
 		if val > MaxInt53 || val < MinInt53 {
 			return fmt.Errorf("integer value %d exceeds safe bounds", val)
 		}
